@@ -568,15 +568,30 @@ impl<V: Val> Runner<V> {
                         obs.findings.push(Finding { property: "C04", monitor: "over-limit", detail: format!("put k{k}: {} entries with limit {nlim}", post_keys.len()) });
                     }
                 }
+                // entries that were already expired when this store ran (and are not the stored key): an
+                // implementation may purge them at any time, that is neither a victim nor a needless eviction
+                let is_async = self.is_async();
+                let now_ns = self.now_ns;
+                let stale = |x: &u8| -> bool {
+                    *x != k
+                        && cfg.ttl.map_or(false, |t| {
+                            let born = cand[x].born_ns;
+                            now_ns - born >= t * NS || (is_async && now_ns / NS - born / NS >= t)
+                        })
+                };
+                let removed_stale: BTreeSet<u8> = removed.iter().copied().filter(|x| stale(x)).collect();
                 if cfg.max_memory.is_none() {
                     let expect = match cfg.limit {
                         Some(nlim) if n > nlim => n - nlim,
                         _ => 0,
                     };
-                    if removed.len() != expect && !(cfg.limit.is_some() && post_keys.len() > cfg.limit.unwrap()) {
-                        let mon = if removed.len() > expect { "needless-eviction" } else { "missing-eviction" };
+                    let removed_live = removed.len() - removed_stale.len();
+                    let needless = removed_live > expect.saturating_sub(removed_stale.len());
+                    let missing = removed.len() < expect;
+                    if (needless || missing) && !(cfg.limit.is_some() && post_keys.len() > cfg.limit.unwrap()) {
+                        let mon = if needless { "needless-eviction" } else { "missing-eviction" };
                         obs.findings.push(Finding { property: "C04", monitor: mon, detail: format!("put k{k}: {} entries before (+1 new), limit {:?}, removed {:?}", pre.len(), cfg.limit, removed) });
-                        if removed.len() > expect && !self.purged.is_empty() {
+                        if needless && !self.purged.is_empty() {
                             obs.findings.push(Finding { property: "C06", monitor: "purged-entry-occupies-capacity", detail: format!("put k{k} evicted {:?} although only {} entries were stored: expired keys {:?} still count", removed, pre.len(), self.purged) });
                         }
                     }
@@ -601,12 +616,16 @@ impl<V: Val> Runner<V> {
                     } else if !removed.is_empty() {
                         // some split R = Rm (memory victims) + optional limit victim must explain the removals
                         let mut explained = false;
-                        let rem_vec: Vec<u8> = removed.iter().copied().collect();
+                        // (entries that were already expired may go at any time, see above)
+                        let rem_vec: Vec<u8> = removed.iter().copied().filter(|x| !removed_stale.contains(x)).collect();
+                        if rem_vec.is_empty() {
+                            explained = true;
+                        }
                         let mut options: Vec<Option<u8>> = vec![None];
                         options.extend(rem_vec.iter().map(|x| Some(*x)));
                         for lim_victim in options {
                             let rm: Vec<u8> = rem_vec.iter().copied().filter(|x| Some(*x) != lim_victim).collect();
-                            let after_rm: Vec<u8> = cand_keys.iter().copied().filter(|x| !rm.contains(x)).collect();
+                            let after_rm: Vec<u8> = cand_keys.iter().copied().filter(|x| !rm.contains(x) && !removed_stale.contains(x)).collect();
                             if let Some(_) = lim_victim {
                                 match cfg.limit {
                                     Some(nlim) if after_rm.len() > nlim => {}
@@ -628,11 +647,11 @@ impl<V: Val> Runner<V> {
                     }
                 }
                 // --- C07 / C08: which entries went
-                let policy_removed: BTreeSet<u8> = if oversized { removed.iter().copied().filter(|x| *x != k).collect() } else { removed.clone() };
+                let policy_removed: BTreeSet<u8> = removed.iter().copied().filter(|x| !(oversized && *x == k) && !removed_stale.contains(x)).collect();
                 if !policy_removed.is_empty() {
                     match cfg.policy {
                         Pol::Fifo | Pol::Lru => {
-                            let mut ord = cand_keys.clone();
+                            let mut ord: Vec<u8> = cand_keys.iter().copied().filter(|x| !removed_stale.contains(x)).collect();
                             if cfg.policy == Pol::Fifo {
                                 ord.sort_by_key(|x| cand[x].stored_seq);
                             } else {
@@ -644,7 +663,8 @@ impl<V: Val> Runner<V> {
                             }
                         }
                         Pol::Lfu | Pol::Arc | Pol::Tlru => {
-                            if !self.explain_c08(&cand_keys, &policy_removed, k, &cand) {
+                            let live_cand: Vec<u8> = cand_keys.iter().copied().filter(|x| !removed_stale.contains(x)).collect();
+                            if !self.explain_c08(&live_cand, &policy_removed, k, &cand) {
                                 let desc: Vec<String> = cand_keys.iter().map(|x| format!("k{x}:hits={},last_use={},age={:.1}s", cand[x].hits, cand[x].last_use, (self.now_ns - cand[x].born_ns) as f64 / NS as f64)).collect();
                                 obs.findings.push(Finding { property: "C08", monitor: "not-a-minimiser", detail: format!("put k{k}: removed {:?}; candidates {:?}; admissible first victims {:?}", policy_removed, desc, self.minimisers(&cand_keys, &cand)) });
                             }
